@@ -34,9 +34,9 @@ def run(ctx, res):
     sc.run_family(ctx, res, "C03", ctx.n(280, 6000), gen=gen_c03, max_tasks=ctx.n(10, 14))
     # additional part: the assignment heuristic itself (Sched/Heur.v) against the real scheduler.api.assign
     import sched_heur
-    sched_heur.run_part(ctx, res, ctx.n(120, 2500), gen_c03, max_tasks=ctx.n(10, 14))
+    sched_heur.run_part(ctx, res, ctx.n(120, 1500), gen_c03, max_tasks=ctx.n(10, 14))
     if ctx.tier == "thorough":
-        sched_heur.run_part(ctx, res, 0, gen_c03, cases=sc.exhaustive_cases(ctx.sub_rng("exh-heur")), tag="heurexh")
+        sched_heur.run_part(ctx, res, 0, gen_c03, cases=sc.exhaustive_cases(ctx.sub_rng("exh-heur")), tag="heurexh", shard=200)
         sc.run_family(ctx, res, "C03", 0, cases=sc.exhaustive_cases(ctx.sub_rng("exh")))
         res.extra["exhaustive_small_scope"] = "all jobs with <= 3 tasks (1-2 outputs, <= 2 inputs) x 4 cluster shapes x 3 requested-output sets x 2 delivery modes"
 
